@@ -4,6 +4,7 @@ import (
 	"bytes"
 	"fmt"
 	"strconv"
+	"strings"
 )
 
 type regExpParser struct {
@@ -66,7 +67,6 @@ func (p *regExpParser) scan() {
 			p.pass()
 			p.scanGroup()
 		case '[':
-			p.pass()
 			p.scanBracket()
 		case ')':
 			p.error(-1, "Unmatched ')'")
@@ -104,7 +104,6 @@ func (p *regExpParser) scanGroup() {
 			p.pass()
 			p.scanGroup()
 		case '[':
-			p.pass()
 			p.scanBracket()
 		default:
 			p.pass()
@@ -121,6 +120,25 @@ func (p *regExpParser) scanGroup() {
 
 // [...].
 func (p *regExpParser) scanBracket() {
+	// The two classes without members are valid (ES5 15.10.1 ClassRanges :: [empty]) but unknown
+	// to re2, where a leading ] is a literal: [] matches nothing, [^] matches every character.
+	empty, skip := "", 0
+	switch str := p.str[p.chrOffset:]; {
+	case strings.HasPrefix(str, "[]"):
+		empty, skip = `[^\x00-\x{10FFFF}]`, 2
+	case strings.HasPrefix(str, "[^]"):
+		empty, skip = `[\x00-\x{10FFFF}]`, 3
+	}
+	if skip > 0 {
+		if _, err := p.goRegexp.WriteString(empty); err != nil {
+			p.errors = append(p.errors, err)
+		}
+		for ; skip > 0; skip-- {
+			p.read()
+		}
+		return
+	}
+	p.pass()
 	for p.chr != -1 {
 		if p.chr == ']' {
 			break
